@@ -63,7 +63,8 @@ def make_xx(cfg):
     pix = make_pixels(cfg)
     gbox = make_geobox(cfg)
     ax = cfg["axis"]
-    cy, cx = cfg["chunks"]
+    # an axis' chunking is an int (regular) or an explicit tuple of chunk sizes (irregular)
+    cy, cx = (tuple(c) if isinstance(c, (list, tuple)) else c for c in cfg["chunks"])
     if ax == "YX":
         dims = ("y", "x")
         chunks = (cy, cx)
